@@ -4,6 +4,14 @@ import json, os
 V = os.path.dirname(os.path.dirname(os.path.abspath(__file__)))
 ALL = ["C%02d" % i for i in range(1, 21)]
 CLAIMED = {
+ "C02": dict(cat="proof", tech="Coq proof of the chunking law over the abstract machine + split-exhaustive correspondence with the gcc-built parser",
+    text="Theorems (Props/C02.v, for every well-formed machine and every data semantics): one feed call on c1++c2 equals a call on c1 followed, if it ran off the end, by a call on c2 from the struct it left; any composition of the input into chunks gives the outcome of the single call (code, state, data, consumed count, events). The tie to the emitted C is a correspondence run under all 2^(n-1) splits of short inputs and adversarial splits of long ones: the binary must give the same chunk-independent observation (hooks with snapshots, yields/finishes with absolute offsets, final code/outputs) under every split and agree call by call with the extracted model.",
+    note="The theorem is about Machine.Sem.feed (the model). Its tie to the C text is sampled (programs, option sets, inputs) though exhaustive in splits for short inputs. Trusted: gcc, exporter, driver generator, extraction.",
+    ref="5 C02"),
+ "C10": dict(cat="proof", tech="Coq proofs of the protocol over the abstract machine + per-machine certificates + call-history correspondence with the gcc-built parser",
+    text="Theorems (Props/C10.v): OK only after the whole chunk (for machines carrying the computed certificate no_stuck_ok), consumed <= chunk length, the fail state is absorbing for feed and end. Every compiled machine is certified; the gcc-built parser (indirect start pointer) is driven through call histories continuing after FAIL/DONE/finish codes and after each yield, its codes, *start movements, outputs and hooks must agree call by call with the extracted model, and the protocol predicates (FAIL absorbing, OK consumes all, cursor inside the chunk) are evaluated on the binary's own trace.",
+    note="Cursor positions on FAIL/DONE/yield are carried by the model's `adv` flag and checked through the call-by-call correspondence; strict-done postponement is covered by the same correspondence, not by a separate theorem. Sampled programs/histories.",
+    ref="5 C10"),
  "C04": dict(cat="translation_validation", tech="Coq-verified no-spin certificate checker on exported machines (vm_compute certificates + extracted checker)",
     text="Every machine the current compiler accepts (corpus + generated programs, several -O levels) is exported structurally and must pass NoSpin.nospin_cert; its Coq soundness theorems (no_spin_step, no_spin_feed, yield_progress) give termination of every feed/end call within a bound linear in the chunk, for every state, symbol and data value under every data semantics, and no endless run of yields without progress. A rejected certificate yields a (state, symbol) cycle and an input reaching it.",
     note="Program quantifier sampled. Trusted: Coq kernel; harness/export.py; Machine/Sem.v as the reading of the emitted C control skeleton (tied by the C06 correspondence); extraction+OCaml for the volume tier (a sample is re-certified inside Coq).",
